@@ -31,3 +31,20 @@ Definition climb_ops (cases : list (op * list (Z * Z) * Z)) : list (option Z) :=
 
 (* input packing then output unpacking of run() *)
 Definition climb_roundtrip (w v : Z) : Z := c_unpack (c_pack (nlimbs w) v).
+
+(* comparison inside Coq (printing big numerals is the expensive part): each case carries the
+   value the implementation showed; the result lists only the disagreeing cases (index, model value) *)
+Fixpoint climb_check_from (k : Z) (cases : list (op * list (Z * Z) * Z * Z)) : list (Z * option Z) :=
+  match cases with
+  | [] => []
+  | (o, args, wd, expected) :: rest =>
+      let got := climb_op o args wd in
+      let tl := climb_check_from (k + 1) rest in
+      match got with
+      | Some g => if g =? expected then tl else (k, got) :: tl
+      | None => (k, None) :: tl
+      end
+  end.
+
+Definition climb_check (cases : list (op * list (Z * Z) * Z * Z)) : list (Z * option Z) :=
+  climb_check_from 0 cases.
